@@ -862,7 +862,7 @@ def gen_history(rng, nrev, nobj=(3, 8), maxnum=12, kinds=('table', 'stream', 'hy
                 if mode == 'same':
                     gw = g
                 elif mode == 'incr':
-                    gw = g + 1
+                    gw = min(g + 1, 65535)      # a generation is a 5-digit / 16-bit field: never beyond 65535
                 else:                       # any other generation is a legal spelling of a free entry too
                     gw = rng.choice([65535, 65535, 1, 2, 65534])
                 ops.append(Free(num, gw))
@@ -872,7 +872,7 @@ def gen_history(rng, nrev, nobj=(3, 8), maxnum=12, kinds=('table', 'stream', 'hy
                     reserved.add(num)       # deleted and never reusable
                 continue
             if num in cur:
-                g = cur[num] + (1 if (gens and rng.random() < 0.1) else 0)
+                g = min(cur[num] + (1 if (gens and rng.random() < 0.1) else 0), 65535)
             else:
                 g = lastgen.get(num, rng.choice([0, 0, 0, 0, 1, 2]) if gens else 0)
             is_stream = rng.random() < streams
